@@ -205,6 +205,10 @@ func mGenFiles() []*mFile {
 	var files []*mFile
 	newFile := func() *mFile {
 		f := &mFile{name: fmt.Sprintf("f%d.fga", len(files)), module: fmt.Sprintf("m%d", len(files))}
+		if zzverif.Param("REVNAMES", 0) == 1 {
+			// file names in descending order: code that sorts the caller's list has something to move
+			f.name = fmt.Sprintf("f%d.fga", 9-len(files))
+		}
 		if len(files) > 0 && zzverif.Param("SAMEMOD", 0) == 1 && zzverif.Choose("same-module", 2) == 1 {
 			// several files of one module (a layout the project supports)
 			f.module = "m0"
